@@ -20,6 +20,7 @@ from __future__ import annotations
 import json
 import logging
 import random
+import re
 import time
 from typing import Any, Callable, Dict, List, Optional, Tuple
 from uuid import uuid4
@@ -620,6 +621,39 @@ WITNESSES = [
 # run
 # ------------------------------------------------------------------------------------------------------------
 
+def recount_after_failure(pr: vlib.ProofResult) -> List[str]:
+    """vlib counts a file as discharged when a .vo newer than its .v exists.  When a theorem over the regenerated
+    Gen/Registry.v fails, the .vo of the failing file and of everything that requires it are left over from the last
+    good build: take them out of the count (and off the disk) so the evidence never reports stale proofs."""
+    if pr.ok:
+        return []
+    failed = set(re.findall(r'File "\./([A-Za-z0-9_/]+\.v)", line \d+, characters [\d-]+:\s*\n\s*Error', pr.log))
+    deps = vlib.dep_files("Props/C14.v")
+    rel = {p: str(p.relative_to(vlib.COQ)) for p in deps}
+    req = {p: {f"{a}/{b}.v" for a, b in re.findall(r"MV\.([A-Za-z0-9_]+)\.([A-Za-z0-9_]+)", vlib.strip_coq_comments(p.read_text()))}
+           for p in deps}
+    bad = set(failed)
+    grew = True
+    while grew:
+        grew = False
+        for p in deps:
+            if rel[p] not in bad and req[p] & bad:
+                bad.add(rel[p])
+                grew = True
+    for p in deps:
+        if rel[p] in bad and rel[p] not in pr.failed_files:
+            n = len([m for m in vlib.THEOREM_RE.finditer(vlib.strip_coq_comments(p.read_text()))])
+            if not (rel[p] == "Props/C14.v" and "Props/C14.v" in pr.failed_files):
+                pr.discharged -= n
+            pr.failed_files.append(rel[p])
+            for suf in (".vo", ".vok", ".vos", ".glob"):
+                q = p.with_suffix(suf)
+                if q.exists():
+                    q.unlink()
+    pr.discharged = max(pr.discharged, 0)
+    return sorted(bad)
+
+
 def short(t: Dict[str, Any]) -> str:
     return json.dumps(t, ensure_ascii=True)[:400]
 
@@ -630,7 +664,10 @@ def run(rep: vlib.Reporter, tier: str, seed: int) -> None:
     rng = random.Random(seed * 7919 + 14)
     changed, snap = c14_gen.generate()                  # T1 (before any harness class exists)
     pr = vlib.build_props("C14")
+    stale = recount_after_failure(pr)
     rep.proof(pr)
+    if stale:
+        rep.add("proof_files_failing_on_this_tree", stale)
     rep.add("gen_registry", {"rewritten": changed, **{k: snap[k] for k in ("ok", "problems", "fw_names", "hub", "installed")},
                              "declarations": [d["name"] for d in snap["decls"]],
                              "registry_pairs": [[e["from"], e["to"], e["name"]] for e in snap["registry"]]})
@@ -899,7 +936,7 @@ def replay(path: str) -> int:
                 rec = check_one(r["table"], r["f1"], r["variant"], r["f2"], r["mode"])
             finally:
                 Flight.stop()
-        print("now:", json.dumps(rec["devs"], ensure_ascii=True, indent=1)[:2000] or "no deviation")
+        print("now:", json.dumps(rec["devs"], ensure_ascii=True, indent=1)[:2000] if rec["devs"] else "no deviation (preserved)")
     elif r.get("kind") == "registry":
         print("now:", json.dumps(run_registry_case(r["case"]))[:2000])
         print("recorded:", json.dumps(r["obs"])[:2000])
